@@ -83,31 +83,47 @@ def kind_of(t: str) -> str:
 
 # ---- value <-> token / JSON ---------------------------------------------------------------------
 
+def float_tok(v: float) -> str:
+    """`f:<hex repr>:<exact ratio>` (sign kept, so -0.0 is `-0/1`)"""
+    if math.isnan(v):
+        x = "nan"
+    elif math.isinf(v):
+        x = "inf" if v > 0 else "-inf"
+    else:
+        n, d = abs(v).as_integer_ratio()
+        x = f"{'-' if math.copysign(1.0, v) < 0 else ''}{n}/{d}"
+    return f"f:{tok_str(repr(v))}:{x}"
+
+
+def _off_tok(v) -> str:
+    if v.tzinfo is None:
+        return "~"
+    secs = v.utcoffset().total_seconds() if isinstance(v, datetime) else v.tzinfo.utcoffset(None).total_seconds()
+    assert secs % 60 == 0, "offsets are whole minutes"
+    return str(int(secs // 60))
+
+
 def val_tok(v: Any) -> str:
+    """C08's value domain: int, bool, float, str, date, datetime, time (second precision, whole-minute
+    offsets), None.  An object of any other class travels as None: like None it fails every isinstance
+    test of the schema, which is all the request path ever does with it."""
     if isinstance(v, bool):
         return "b:T" if v else "b:F"
     if isinstance(v, int):
         return f"i:{v}"
     if isinstance(v, float):
-        if math.isnan(v):
-            x = "nan"
-        elif math.isinf(v):
-            x = "inf" if v > 0 else "-inf"
-        else:
-            n, d = v.as_integer_ratio()
-            x = f"{n}/{d}"
-        return f"f:{tok_str(repr(v))}:{x}"
+        return float_tok(v)
     if isinstance(v, str):
         return "s:" + tok_str(v)
     if isinstance(v, datetime):
-        return f"d:DT:{'A' if v.tzinfo is not None else 'N'}:{tok_str(v.isoformat())}"
+        assert v.microsecond == 0
+        return f"DT:{v.year}.{v.month}.{v.day}.{v.hour}.{v.minute}.{v.second}:{_off_tok(v)}"
     if isinstance(v, date):
-        return f"d:D:N:{tok_str(v.isoformat())}"
+        return f"D:{v.year}.{v.month}.{v.day}"
     if isinstance(v, time):
-        return f"d:T:{'A' if v.tzinfo is not None else 'N'}:{tok_str(v.isoformat())}"
-    if v is None:
-        return "n"
-    return "o:" + tok_str(type(v).__name__)
+        assert v.microsecond == 0
+        return f"T:{v.hour}.{v.minute}.{v.second}:{_off_tok(v)}"
+    return "n"
 
 
 def val_json(v: Any) -> Any:
@@ -271,29 +287,26 @@ def tree_lines(body: Any) -> List[str]:
 
 
 def oracle_lines(decl: Dict[str, Any], texts_by_arg: Dict[str, List[str]]) -> List[str]:
-    from async_upnp_client.utils import parse_date_time
-
+    """the float oracle: `float(text)` for every text a float-typed argument can meet (declared
+    bounds / allowed values, the caller's floats rendered, what was sent / received)"""
     out = []
     seen = set()
     for a in decl["args"]:
-        k = kind_of(a["type"])
-        if k not in ("float", "dt"):
+        if kind_of(a["type"]) != "float":
             continue
         texts = list(texts_by_arg.get(a["name"], []))
         if a.get("range"):
             texts += [x for x in (a["range"].get("min"), a["range"].get("max")) if x is not None]
         texts += list(a.get("allowed") or [])
         for t in texts:
-            key = (k, t)
-            if key in seen:
+            if t in seen:
                 continue
-            seen.add(key)
+            seen.add(t)
             try:
-                v = float(t) if k == "float" else parse_date_time(t)
-                r = val_tok(v)
+                r = float_tok(float(t))
             except ValueError:
                 r = "!"
-            out.append(f"{'pf' if k == 'float' else 'pd'} {tok_str(t)} {r}")
+            out.append(f"pf {tok_str(t)} {r}")
     return out
 
 
@@ -362,8 +375,6 @@ def run_recipe(ctx: Ctx, recipe: Dict[str, Any], cid: str) -> Case:
         for n, v in kwargs.items():
             if isinstance(v, float):
                 texts.setdefault(n, []).append(repr(v))
-            elif isinstance(v, (date, time)):
-                texts.setdefault(n, []).append(v.isoformat())
         body = log[0][3] if log else None
         tl = tree_lines(body)
         if log and tl[0] != "tree ~":
@@ -435,7 +446,8 @@ STR_ALPHABETS = [
     "\u00e9\u65e5\u672c\U0001F600\u0085\u2028\ufffd\ud7ff\ue000",
     "a<b>&c\r\nd\re\n",
 ]
-TZS = [timezone.utc, timezone(timedelta(hours=1)), timezone(timedelta(hours=-5, minutes=-30)), timezone(timedelta(hours=23, minutes=59))]
+TZS = [timezone.utc, timezone(timedelta(hours=1)), timezone(timedelta(hours=-5, minutes=-30)), timezone(timedelta(hours=23, minutes=59)),
+       timezone(timedelta(hours=-23, minutes=-59)), timezone(timedelta(minutes=-1)), timezone(timedelta(hours=5, minutes=45))]
 
 
 def rand_name(rng) -> str:
@@ -451,7 +463,10 @@ def rand_str(rng) -> str:
 
 
 def rand_date(rng) -> date:
-    return date(rng.choice([1, 1970, 2000, 2024, 9999]), rng.randrange(1, 13), rng.randrange(1, 29))
+    y = rng.choice([1, 9, 99, 999, 1000, 1970, 2000, 2024, 9999, rng.randrange(1, 10000)])
+    m = rng.randrange(1, 13)
+    last = [31, 29 if (y % 4 == 0 and (y % 100 != 0 or y % 400 == 0)) else 28, 31, 30, 31, 30, 31, 31, 30, 31, 30, 31][m - 1]
+    return date(y, m, rng.choice([1, last, rng.randrange(1, last + 1)]))
 
 
 def rand_time(rng, aware=None) -> time:
